@@ -88,7 +88,7 @@ Lemma api_exec_dv : forall lim faults fixed fuel a st,
   (dv st <= dv (fst (api_exec lim faults fixed fuel a st)))%nat /\
   (fixed = true -> dv (fst (api_exec lim faults fixed fuel a st)) = dv st).
 Proof.
-  intros lim faults fixed fuel a st. destruct a as [body|body|acts|]; simpl.
+  intros lim faults fixed fuel a st. destruct a as [body|body|acts| |run late rr evs]; simpl.
   - pose proof (exec_api_inv lim faults fixed fuel (NRun false body) st I) as (A & B & C).
     destruct (exec lim faults fixed fuel (NRun false body) st) as [s' o]. destruct o; simpl in *; auto.
   - pose proof (exec_api_inv lim faults fixed fuel (NCallable false body) st I) as (A & B & C).
@@ -97,7 +97,18 @@ Proof.
                   (run_acts_inv fixed (exec lim faults fixed fuel) (exec_inv lim faults fixed fuel) acts)) as (A & B & C).
     destruct (vm_try (run_acts (exec lim faults fixed fuel) acts) st) as [s' o]. destruct o; simpl in *; auto.
   - split; auto.
-  - split; auto.
+  - destruct (intr st). { split; auto. }
+    set (s1 := if late then st else set_log (log st ++ evs) st).
+    assert (D1 : dv s1 = dv st) by (unfold s1; destruct late; reflexivity).
+    set (sw := if run then set_cs (halt_ctx :: cs s1) s1 else s1).
+    assert (Dw : dv sw = dv st) by (unfold sw; destruct run; exact D1).
+    destruct (proj1 (proj2 (main_invariant lim faults fixed fuel)) sw) as (A & B & C).
+    assert (Hl : (dv st <= dv (fst (scen_finish run late rr evs (leave lim faults fixed fuel sw))))%nat /\
+                 (fixed = true -> dv (fst (scen_finish run late rr evs (leave lim faults fixed fuel sw))) = dv st)).
+    { unfold scen_finish. destruct (leave lim faults fixed fuel sw) as [s2 o]. simpl in A, B.
+      destruct o; try (destruct (uncatchable_err p)); destruct run; try destruct late; simpl; unfold dv in *; cbn;
+        (split; [lia | intros F; rewrite <- Dw; apply B; auto]). }
+    destruct rr as [|[| | |]| |]; try exact Hl; simpl; unfold dv in *; cbn; (split; [lia | intros; lia]).
 Qed.
 
 Lemma api_exec_idle : forall lim faults fixed fuel a st,
@@ -107,7 +118,7 @@ Lemma api_exec_idle : forall lim faults fixed fuel a st,
   idle_regs (fst (api_exec lim faults fixed fuel a st)) = true.
 Proof.
   intros lim faults fixed fuel a st Hi. pose proof (idle_TopOK st Hi) as T.
-  destruct a as [body|body|acts| |r evs]; simpl.
+  destruct a as [body|body|acts| |run late rr evs]; simpl.
   - pose proof (exec_api_inv lim faults fixed fuel (NRun false body) st I) as (A & B & C).
     destruct (exec lim faults fixed fuel (NRun false body) st) as [s' o]. simpl in *.
     destruct o; simpl; intros Hs D; try congruence;
@@ -122,7 +133,37 @@ Proof.
     destruct o; simpl; intros Hs D; try congruence;
       specialize (C D T); simpl in C; eapply idle_regs_of_regs; eauto.
   - intros _ _. exact Hi.
-  - intros _ _. exact Hi.
+  - destruct (intr st). { intros _ _. exact Hi. }
+    set (s1 := if late then st else set_log (log st ++ evs) st).
+    assert (R1 : regs s1 = regs st) by (unfold s1; destruct late; reflexivity).
+    assert (D1 : dv s1 = dv st) by (unfold s1; destruct late; reflexivity).
+    assert (I1 : idle_regs s1 = true) by (eapply idle_regs_of_regs; eauto).
+    pose proof (idle_regs_spec s1 I1) as (_ & _ & _ & _ & _ & Hcs1 & _).
+    set (sw := if run then set_cs (halt_ctx :: cs s1) s1 else s1).
+    assert (Dw : dv sw = dv st) by (unfold sw; destruct run; exact D1).
+    assert (Tw : TopOK sw).
+    { unfold sw. destruct run. apply TopOK_ne. discriminate. apply idle_TopOK; auto. }
+    destruct (proj1 (proj2 (main_invariant lim faults fixed fuel)) sw) as (A & B & C).
+    assert (Hl : snd (scen_finish run late rr evs (leave lim faults fixed fuel sw)) <> RStuck ->
+                 dv (fst (scen_finish run late rr evs (leave lim faults fixed fuel sw))) = dv st ->
+                 idle_regs (fst (scen_finish run late rr evs (leave lim faults fixed fuel sw))) = true).
+    { unfold scen_finish. destruct (leave lim faults fixed fuel sw) as [s2 o]. simpl in A, B, C.
+      assert (Hr : dv s2 = dv st -> o = ONorm \/ (exists p, o = OPanic p) ->
+                   idle_regs (if run then top_fin s2 else s2) = true).
+      { intros D Ho. assert (D' : dv s2 = dv sw) by lia. specialize (C D' Tw).
+        assert (R2 : regs s2 = regs sw) by (destruct Ho as [Ho|(q & Ho)]; subst o; exact C).
+        eapply idle_regs_of_regs; [|exact I1]. apply regs_inv in R2.
+        destruct R2 as (c1 & c2 & c3 & c4 & c5 & c6 & c7 & c8 & c9).
+        unfold sw in *. destruct run; [|apply regs_intro; auto].
+        cbn in c1, c2, c3, c4, c5, c6, c7, c8, c9. unfold top_fin. apply regs_intro; cbn; try congruence.
+        rewrite c6. reflexivity. }
+      destruct o; simpl; intros Hs D; try congruence.
+      - assert (Hd : dv s2 = dv st) by (destruct run; destruct late; exact D).
+        specialize (Hr Hd (or_introl eq_refl)). destruct run; destruct late; exact Hr.
+      - destruct (uncatchable_err p); simpl in *.
+        + assert (Hd : dv s2 = dv st) by (destruct run; exact D). apply (Hr Hd). eauto.
+        + assert (Hd : dv s2 = dv st) by (destruct run; exact D). apply (Hr Hd). eauto. }
+    destruct rr as [|[| | |]| |]; auto; intros _ _; unfold leave_abrupt; exact I1.
 Qed.
 
 Definition no_new_deviation (fixed : bool) (s s' : state) : Prop := fixed = true \/ leaked s' = leaked s.
